@@ -188,3 +188,20 @@ Definition run_tag (ty : str) (s : str) : str :=
   else if is_ty ty "Value" then tag_result parse_value print_value dValue s
   else if is_ty ty "StreamData" then tag_result parse_stream_data print_stream_data dSDT s
   else lit "badop".
+
+(* ---------- op `assoc`: rendition lookup ---------- *)
+Fixpoint indices_where {A} (p : A -> bool) (l : list A) (i : N) : list N :=
+  match l with
+  | [] => []
+  | x :: r => (if p x then [i] else []) ++ indices_where p r (i + 1)
+  end.
+Definition is_audio_stream (v : Variant) : bool :=
+  match v with VStreamInf _ _ (Some _) _ _ _ => true | _ => false end.
+Definition is_video_stream (v : Variant) : bool := is_some (sd_video (variant_sd v)).
+Definition run_assoc (input : str) : str :=
+  dRes (fun p =>
+    paren "assoc" (map (fun v => paren "v" (map dN (indices_where (is_associated v) (ma_media p) 0))) (ma_variants p)
+                   ++ [ paren "audio" (map dN (indices_where is_audio_stream (ma_variants p) 0));
+                        paren "video" (map dN (indices_where is_video_stream (ma_variants p) 0));
+                        paren "isassoc" [dB true] ]))
+    (parse_master input).
